@@ -182,6 +182,7 @@ type Opts struct {
 	MaxDepth int
 	MaxStmts int
 	NoHTML   bool // stay in PHP mode (for composition with statement-level edits)
+	Formatter bool // avoid the constructs on which the formatter is known to fail (C17 composes programs from the rest)
 }
 
 // G is the generator state for one program.
@@ -806,6 +807,11 @@ func (g *G) binary(depth int, rightOpen bool) *Node {
 func (g *G) unary(depth int, rightOpen bool) *Node {
 	u := unops[g.R.Intn(len(unops))]
 	e := g.fit(g.expr(depth+1, rightOpen), u.prec, false, rightOpen, u.kind)
+	if g.O.Formatter && (u.op == "+" || u.op == "-") {
+		if ts := e.Tokens(); len(ts) > 0 && len(ts[0].S) > 0 && (ts[0].S[0] == '+' || ts[0].S[0] == '-') {
+			e = g.brackets(e) // the formatter glues "+ ++$a" into "+++$a" (recorded finding)
+		}
+	}
 	return &Node{Kind: u.kind, Kids: []Kid{one(u.role, e)}, Parts: parts(t(u.op), e), Prec: u.prec, Prefix: true}
 }
 
@@ -937,7 +943,11 @@ func (g *G) yield(depth int, rightOpen bool) *Node {
 		y := &Node{Kind: "ExprYield", Kids: []Kid{one("Val", v)}, Parts: parts(g.kw("yield"), v), Prec: 7, Prefix: true}
 		return g.brackets(y)
 	}
-	switch g.R.Intn(4) {
+	yk := g.R.Intn(4)
+	if g.O.Formatter && yk == 0 {
+		yk = 3
+	}
+	switch yk {
 	case 0:
 		y := &Node{Kind: "ExprYield", Parts: parts(g.kw("yield")), Prec: 7, Prefix: true}
 		return g.brackets(y) // a bare yield followed by an operator would take it as its operand
@@ -981,7 +991,7 @@ func (g *G) args(depth int) ([]*Node, []interface{}) {
 }
 
 func (g *G) newExpr(depth int) *Node {
-	if g.php7() && g.R.Chance(1, 4) {
+	if g.php7() && g.R.Chance(1, 4) && !g.O.Formatter {
 		cls := g.classDecl(depth+1, true)
 		return &Node{Kind: "ExprNew", Kids: []Kid{one("Class", cls)}, Parts: parts(g.kw("new"), cls), Prec: precNew, Prefix: true, Flags: FPhp7Only}
 	}
@@ -1056,7 +1066,7 @@ func (g *G) varExpr(depth int, call bool) *Node {
 		if g.O.Fam == 5 {
 			return base // PHP 5 applies the extra '$' to the whole reference that follows ($$a[0] is ${$a[0]})
 		}
-	case k == 1:
+	case k == 1 && !g.O.Formatter:
 		e := g.exprTop(depth + 1)
 		base = &Node{Kind: "ExprVariable", Kids: []Kid{one("Name", e)}, Parts: parts(t("$"), t("{"), e, t("}")), Prec: 100}
 	case k == 2 && depth < g.O.MaxDepth:
@@ -1126,7 +1136,7 @@ func (g *G) varExpr(depth int, call bool) *Node {
 				continue
 			}
 			as, ps := g.args(depth)
-			if g.R.Chance(1, 4) {
+			if g.R.Chance(1, 4) && !g.O.Formatter {
 				// ->{expr}(args)
 				e := g.exprTop(depth + 1)
 				base = &Node{Kind: "ExprMethodCall", Kids: []Kid{one("Var", base), one("Method", e), list("Args", as)}, Parts: parts(base, t("->"), t("{"), e, t("}"), ps), Prec: 100}
@@ -1141,6 +1151,9 @@ func (g *G) varExpr(depth int, call bool) *Node {
 			m, _ := g.memberName()
 			base = &Node{Kind: "ExprMethodCall", Kids: []Kid{one("Var", base), one("Method", m), list("Args", as)}, Parts: parts(base, t("->"), m, ps), Prec: 100}
 		case 3: // ->{expr}
+			if g.O.Formatter {
+				continue
+			}
 			e := g.exprTop(depth + 1)
 			base = &Node{Kind: "ExprPropertyFetch", Kids: []Kid{one("Var", base), one("Prop", e)}, Parts: parts(base, t("->"), t("{"), e, t("}")), Prec: 100}
 		}
@@ -1159,10 +1172,14 @@ func (g *G) simpleVarPlain() *Node { return g.varNamed("$" + g.ident()) }
 
 func (g *G) arrayItem(depth int, allowSpread bool) *Node {
 	v := g.exprTop(depth + 1)
-	switch k := g.R.Intn(10); {
+	kk := g.R.Intn(10)
+	if g.O.Formatter && kk == 3 {
+		kk = 9
+	}
+	switch k := kk; {
 	case k < 3:
 		key := g.fit(g.expr(depth+1, false), precAssign, false, false, "ExprArrayItem.Key")
-		if g.R.Chance(1, 4) {
+		if g.R.Chance(1, 4) && !g.O.Formatter {
 			rv := g.varExpr(depth+1, false)
 			return &Node{Kind: "ExprArrayItem", Kids: []Kid{one("Key", key), one("Val", rv)}, Parts: parts(key, t("=>"), t("&"), rv)}
 		}
@@ -1181,8 +1198,11 @@ func (g *G) arrayLit(depth int) *Node {
 	for i, n := 0, g.R.Intn(4); i < n; i++ {
 		items = append(items, g.arrayItem(depth, true))
 	}
+	if g.O.Formatter && len(items) == 0 {
+		items = append(items, g.arrayItem(depth, true))
+	}
 	body := sepList(items, ",")
-	if len(items) > 0 && g.R.Chance(1, 4) {
+	if len(items) > 0 && g.R.Chance(1, 4) && !g.O.Formatter {
 		// a trailing comma yields a final empty item in this AST
 		items = append(items, &Node{Kind: "ExprArrayItem"})
 		body = append(body, t(","))
@@ -1210,7 +1230,7 @@ func (g *G) listTarget(depth int, allowShort bool) *Node {
 		case keyed:
 			key := g.fit(g.expr(depth+1, false), precAssign, false, false, "ExprArrayItem.Key")
 			items = append(items, &Node{Kind: "ExprArrayItem", Kids: []Kid{one("Key", key), one("Val", val)}, Parts: parts(key, t("=>"), val)})
-		case g.R.Chance(1, 6) && i > 0:
+		case g.R.Chance(1, 6) && i > 0 && !g.O.Formatter:
 			items = append(items, &Node{Kind: "ExprArrayItem"}) // skipped slot
 			items = append(items, &Node{Kind: "ExprArrayItem", Kids: []Kid{one("Val", val)}, Parts: parts(val)})
 		default:
@@ -1337,7 +1357,11 @@ func (g *G) constExpr(depth int) *Node {
 		return &Node{Kind: "ExprUnaryMinus", Kids: []Kid{one("Expr", n)}, Parts: parts(t("-"), n), Prec: pr}
 	case 3:
 		var items []*Node
-		for i, n := 0, g.R.Intn(3); i < n; i++ {
+		ni := g.R.Intn(3)
+		if g.O.Formatter && ni == 0 {
+			ni = 1
+		}
+		for i, n := 0, ni; i < n; i++ {
 			v := g.constExpr(depth + 1)
 			items = append(items, &Node{Kind: "ExprArrayItem", Kids: []Kid{one("Val", v)}, Parts: parts(v)})
 		}
@@ -1408,7 +1432,7 @@ func (g *G) closure(depth int) *Node {
 	ps, pp := g.params(depth)
 	n.Kids = append(n.Kids, list("Params", ps))
 	n.Parts = append(n.Parts, pp...)
-	if g.R.Chance(1, 3) {
+	if g.R.Chance(1, 3) && !g.O.Formatter {
 		var us []*Node
 		for i, k := 0, g.R.Range(1, 3); i < k; i++ {
 			v := g.simpleVarPlain()
